@@ -10,7 +10,7 @@ class Labelling:
     """How a tissue is numbered and stored. All fields are plain data (JSON-able)."""
 
     def __init__(self, seed=0, relabel_v=False, relabel_e=False, relabel_c=False, shifts=False, flips="none",
-                 flip_bits=None):
+                 flip_bits=None, perm_cells=False):
         self.seed = seed
         self.relabel_v = relabel_v
         self.relabel_e = relabel_e
@@ -18,10 +18,11 @@ class Labelling:
         self.shifts = shifts
         self.flips = flips            # 'none' (all CCW) | 'all' (all CW) | 'mixed' | 'bits'
         self.flip_bits = flip_bits    # int bit pattern over cells in id order, when flips == 'bits'
+        self.perm_cells = perm_cells  # cells constructed (and inserted) in a permuted order
 
     def to_json(self):
         return dict(seed=self.seed, relabel_v=self.relabel_v, relabel_e=self.relabel_e, relabel_c=self.relabel_c,
-                    shifts=self.shifts, flips=self.flips, flip_bits=self.flip_bits)
+                    shifts=self.shifts, flips=self.flips, flip_bits=self.flip_bits, perm_cells=self.perm_cells)
 
     @staticmethod
     def from_json(d):
@@ -31,6 +32,9 @@ class Labelling:
 def _idmap(n, rng, relabel):
     if not relabel:
         return list(range(n))
+    if relabel == "perm0":
+        # zero-based contiguous ids in a different order (id 0 lands on an arbitrary element)
+        return [int(x) for x in rng.permutation(n)]
     # injective, with gaps, not starting at 0
     base = int(rng.integers(1, 50))
     steps = rng.integers(1, 4, size=n)
@@ -104,6 +108,10 @@ def realise(t, n_int, lab=None):
         flipbits = [bool((int(lab.flip_bits) >> i) & 1) for i in range(ncell)]
     else:
         flipbits = [False] * ncell
+    if lab.perm_cells:
+        perm = [int(x) for x in rng.permutation(ncell)]
+        order_c = [order_c[k] for k in perm]
+        flipbits = [flipbits[k] for k in perm]
     for idx, cid in enumerate(order_c):
         poly = t.cell_polygon(cid, lambda ri: R.n_int[ri])
         if lab.shifts:
